@@ -49,7 +49,7 @@ def post_gen(plan, w, model):
 
 PROFILE = H.Profile('c09', nops=(3, 24), cfg_fn=cfg_fn, post_gen=post_gen,
                     weights={'add_fp': 30, 'add_dir': 20, 'add_link': 10, 'rm_file': 8, 'rm_dir': 6, 'rm_link': 6, 'hide': 4, 'dup_pvd': 0,
-                             'add_eltorito': 2, 'add_isohybrid': 0, 'restart': 5, 'mass_dirs': 2, 'mass_files': 2})
+                             'add_eltorito': 2, 'add_isohybrid': 0, 'restart': 5, 'mass_dirs': 2, 'mass_files': 2, 'twin_links': 4})
 
 ESC = {1: b'%/@', 2: b'%/C', 3: b'%/E'}
 
